@@ -263,7 +263,7 @@ KNOWN = {
                                                   "GaussianTransform", "Gaussian", "GKP", "Del", "New", "free-parameters", "free-parameter-expression(a**2)",
                                                   "free-parameter-function", "measured-parameter", "measured-parameter-expression", "measured-parameter-two-digit-mode",
                                                   "multi-command-with-feed-forward")},
-    ("blackbird", "tdm-save-raises", "tdm-single-band"): "F43a", ("blackbird", "tdm-save-raises", "tdm-two-bands-dagger-select"): "F43a",
+    ("blackbird", "tdm-save-raises", "tdm-single-band"): "F43a", ("blackbird", "tdm-save-raises", "tdm-two-bands-dagger-select"): "F43a", ("blackbird", "tdm-save-raises", "tdm-twelve-loop-variables"): "F43a",
     ("blackbird", "tdm-N", "tdm-two-bands-dagger-select"): "F48", ("xir", "tdm-load-raises", "tdm-two-bands-dagger-select"): "F48",
 }
 
@@ -342,7 +342,17 @@ def tdm_programs():
             ops.MeasureX | q[0]
             ops.MeasureHomodyne(p[1], select=0.0) | q[1]
         return prog
-    return [("tdm-single-band", single), ("tdm-two-bands-dagger-select", two_band)]
+    def many():
+        # twelve per-time-bin arrays: loop-variable names with two digits (p10, p11); array k holds k + t / 8
+        prog = sf.TDMProgram(N=2)
+        arrs = [[k + t / 8 for t in range(3)] for k in range(12)]
+        with prog.context(*arrs) as (p, q):
+            ops.Sgate(0.5, p[0]) | q[1]
+            for k in range(1, 11):
+                ops.Rgate(p[k]) | q[k % 2]
+            ops.MeasureHomodyne(p[11]) | q[0]
+        return prog
+    return [("tdm-single-band", single), ("tdm-two-bands-dagger-select", two_band), ("tdm-twelve-loop-variables", many)]
 
 
 def tdm_roundtrip(label, mk, ir):
